@@ -8,8 +8,10 @@ package sysloginput
 
 // lastparsed: ghost - what the underlying parser returned (it has counted the line as passed iff this is not nil: C09)
 //@ ghost var lastparsed *base.LogRecord
+// (trusted: a parser does not touch the batch of the connection that calls it)
 //@ extern func (p base.LogParser) Parse(input []byte, timestamp time.Time) *base.LogRecord
 //@   modifies everything
+//@   preserves bsupport.logParsingReceiverSink.*, mem(*base.LogRecord)
 //@   ghostset lastparsed := result
 
 // C19 "pipeline passed plus dropped equals input passed": a record the parser has counted as passed and an extraction
